@@ -121,7 +121,11 @@ pub const NAMES: &[&str] = &[
     "parent", "as_type", "literal", "pattern", "type_hint", "where_clause", "repeat", "skip_repeat", "stop_repeat", "allow_unknown", "foo", "doc",
 ];
 
-pub const BASE: &[&str] = &["a", "T", "Er", "0", "\"s\"", "|", ",", ":", ".", "::", "@", "~", "..", "_", "=>", "as", "return", "vars", "repeat", "skip_repeat", "Unit"];
+pub const BASE: &[&str] = &[
+    "a", "T", "Er", "0", "\"s\"", "|", ",", ":", ".", "::", "@", "~", "..", "_", "=>", "as", "return", "vars", "repeat", "skip_repeat", "Unit",
+    // literal varieties and further punctuation
+    "1u8", "4294967296", "1.5", "'c'", "b\"x\"", "r#type", "'a", "-", "!", "?", ";", "<", ">", "&", "*", "=", "#", "permeate",
+];
 pub const GROUPS: &[(&str, &str)] = &[("(", ")"), ("{", "}"), ("[", "]")];
 
 fn fill(template: &str, traits: &str, holes: &[(usize, String)]) -> String {
